@@ -1,6 +1,6 @@
 (** Protocol operations for C16 (see Lib/Val.v). *)
 From Coq Require Import ZArith List Bool String.
-From Low Require Import Lib.Bits Lib.BitSeq Lib.Lex Lib.Bytes Lib.Val Model.Sigbits Spec.SigbitsSpec.
+From Low Require Import Lib.Bits Lib.BitSeq Lib.Lex Lib.Bytes Lib.Val Model.Sigbits Model.SigbitsQueries Spec.SigbitsSpec Spec.SigbitsSpec16x.
 Import ListNotations.
 Open Scope string_scope.
 Open Scope Z_scope.
@@ -10,6 +10,44 @@ Definition vpairZL (p : Z * list Z) : val := VL [VZ (fst p); vzs (snd p)].
 (** the domain of the CountPrefixes statement *)
 Definition c16_cp_dom (keys : list (list Z)) (s e m : Z) : bool :=
   keys_okb keys && strict_ascb keys && (0 <=? s) && (s + 2 <=? e) && (e <=? zlen keys) && (1 <=? m).
+
+(** a query triple [s,e,m] *)
+Definition as_q (v : val) : option (Z * Z * Z) :=
+  match v with VL [VZ s; VZ e; VZ m] => Some (s, e, m) | _ => None end.
+Fixpoint as_qs_aux (l : list val) : option (list (Z * Z * Z)) :=
+  match l with
+  | [] => Some []
+  | v :: t => match as_q v, as_qs_aux t with Some q, Some qs => Some (q :: qs) | _, _ => None end
+  end.
+Definition as_qs (v : val) : option (list (Z * Z * Z)) :=
+  match v with VL l => as_qs_aux l | _ => None end.
+
+(** the run on a counter-described key set *)
+Definition c16_counter_run (a : list val) : val :=
+  match a with
+  | [p; w; c0; n; s; e; m] =>
+      match as_zs p, as_z w, as_z c0, as_z n, as_z s, as_z e, as_z m with
+      | Some p, Some w, Some c0, Some n, Some s, Some e, Some m =>
+          if (0 <=? w) && (0 <=? c0) && (0 <=? n) && (c0 + n <=? 256 ^ w) then
+            let keys := counter_keys p w c0 n in
+            if c16_cp_dom keys s e m then
+              match New keys with
+              | Some sb => match CountPrefixes sb s e m with Some r => vpairZL r | None => VPanic end
+              | None => VPanic
+              end
+            else VBad
+          else VBad
+      | _, _, _, _, _, _, _ => VBad end
+  | _ => VBad end.
+
+Definition c16_counter_spec (f : list (list Z) -> Z -> Z -> Z -> Z * list Z) (a : list val) : val :=
+  match a with
+  | [p; w; c0; n; s; e; m] =>
+      match as_zs p, as_z w, as_z c0, as_z n, as_z s, as_z e, as_z m with
+      | Some p, Some w, Some c0, Some n, Some s, Some e, Some m =>
+          vpairZL (f (counter_keys p w c0 n) s e m)
+      | _, _, _, _, _, _, _ => VBad end
+  | _ => VBad end.
 
 Definition ops_C16 : list opdef := [
   (* sigbits.FirstDiffBits(keys), keys non-empty *)
@@ -44,5 +82,53 @@ Definition ops_C16 : list opdef := [
        | [keys; s; e; m] => match as_zss keys, as_z s, as_z e, as_z m with
            | Some keys, Some s, Some e, Some m => vpairZL (spec_CountPrefixes keys s e m)
            | _, _, _, _ => VBad end
+       | _ => VBad end) |};
+  (* sigbits.New(keys).CountPrefixes(s, s+1, m): a range of one key (keys in any order) *)
+  {| op_name := "sigbits.CountPrefixes/single";
+     op_run := fun a => match a with
+       | [keys; s; m] => match as_zss keys, as_z s, as_z m with
+           | Some keys, Some s, Some m =>
+               if keys_okb keys && (0 <=? s) && (s <? zlen keys) && (1 <=? m) then
+                 match New keys with
+                 | Some sb => match CountPrefixes sb s (s + 1) m with Some p => vpairZL p | None => VPanic end
+                 | None => VPanic
+                 end
+               else VBad
+           | _, _, _ => VBad end
+       | _ => VBad end;
+     op_spec := fun_spec (fun a => match a with
+       | [keys; s; m] => match as_z m with
+           | Some m => vpairZL (spec_CountPrefixes_single m)
+           | None => VBad end
+       | _ => VBad end) |};
+  (* keys = prefix + w-byte big-endian counter c0..c0+n-1; New(keys).CountPrefixes(s, e, m); naive oracle *)
+  {| op_name := "sigbits.CountPrefixes/counter";
+     op_run := c16_counter_run;
+     op_spec := fun_spec (c16_counter_spec spec_CountPrefixes) |};
+  (* the same for key sets too large for the quadratic naive oracle: the linear one, proved equal *)
+  {| op_name := "sigbits.CountPrefixes/counter-big";
+     op_run := c16_counter_run;
+     op_spec := fun_spec (c16_counter_spec spec_CountPrefixes_fast) |};
+  (* sb := New(keys); a list of CountPrefixes queries on the SAME object; observed: the answers, and 1 when
+     the object's precomputed differences still equal FirstDiffBits(keys) afterwards *)
+  {| op_name := "sigbits.SigBits/queries";
+     op_run := fun a => match a with
+       | [keys; qs] => match as_zss keys, as_qs qs with
+           | Some keys, Some qs =>
+               if forallb (fun q => match q with (s, e, m) => c16_cp_dom keys s e m end) qs
+                  && keys_okb keys && negb (zlen keys =? 0) then
+                 match New keys with
+                 | Some sb => match run_queries sb qs with
+                              | Some rs => VL [VL (map vpairZL rs); VZ 1]
+                              | None => VPanic end
+                 | None => VPanic
+                 end
+               else VBad
+           | _, _ => VBad end
+       | _ => VBad end;
+     op_spec := fun_spec (fun a => match a with
+       | [keys; qs] => match as_zss keys, as_qs qs with
+           | Some keys, Some qs => VL [VL (map vpairZL (spec_queries keys qs)); VZ 1]
+           | _, _ => VBad end
        | _ => VBad end) |}
 ].
